@@ -171,10 +171,11 @@ func renderSSE(rng *rand.Rand, c completion) []byte {
 	}
 	w(chunk(map[string]any{"role": "assistant", "content": ""}, nil))
 	ti := 0
+	var body []map[string]any
 	for _, s := range c.Segs {
 		if !s.Tool {
 			for _, p := range splitRunes(rng, s.Text, c.Gran) {
-				w(chunk(map[string]any{"content": p}, nil))
+				body = append(body, chunk(map[string]any{"content": p}, nil))
 			}
 			continue
 		}
@@ -183,9 +184,9 @@ func renderSSE(rng *rand.Rand, c completion) []byte {
 		if len(pieces) > 0 && rng.Intn(2) == 0 {
 			first, pieces = pieces[0], pieces[1:]
 		}
-		w(chunk(map[string]any{"tool_calls": []any{map[string]any{"index": ti, "id": s.ID, "type": "function", "function": map[string]any{"name": s.Name, "arguments": first}}}}, nil))
+		body = append(body, chunk(map[string]any{"tool_calls": []any{map[string]any{"index": ti, "id": s.ID, "type": "function", "function": map[string]any{"name": s.Name, "arguments": first}}}}, nil))
 		for _, p := range pieces {
-			w(chunk(map[string]any{"tool_calls": []any{map[string]any{"index": ti, "function": map[string]any{"arguments": p}}}}, nil))
+			body = append(body, chunk(map[string]any{"tool_calls": []any{map[string]any{"index": ti, "function": map[string]any{"arguments": p}}}}, nil))
 		}
 		ti++
 	}
@@ -193,12 +194,28 @@ func renderSSE(rng *rand.Rand, c completion) []byte {
 	if c.Finish != "" {
 		fin = c.Finish
 	}
-	last := chunk(map[string]any{}, fin)
 	usage := map[string]any{"prompt_tokens": c.PromptTok, "completion_tokens": c.ComplTok, "total_tokens": c.PromptTok + c.ComplTok}
-	if c.Usage == "in-finish" {
-		last["usage"] = usage
+	// some backends (llama.cpp, Ollama, vLLM) put finish_reason on the chunk that carries the
+	// last delta instead of sending a separate closing chunk with an empty delta
+	if len(body) > 0 && rng.Intn(3) == 0 {
+		lastBody := body[len(body)-1]
+		lastBody["choices"].([]any)[0].(map[string]any)["finish_reason"] = fin
+		if c.Usage == "in-finish" {
+			lastBody["usage"] = usage
+		}
+		for _, b := range body {
+			w(b)
+		}
+	} else {
+		for _, b := range body {
+			w(b)
+		}
+		last := chunk(map[string]any{}, fin)
+		if c.Usage == "in-finish" {
+			last["usage"] = usage
+		}
+		w(last)
 	}
-	w(last)
 	if c.Usage == "separate-empty-choices" {
 		w(map[string]any{"id": "chatcmpl-x", "object": "chat.completion.chunk", "created": 1, "model": c.Model, "choices": []any{}, "usage": usage})
 	}
